@@ -4,8 +4,11 @@
      U                  one line per type: predicate bits and derived types
      E                  one line per type: rows of Equal and DeepEqual against every type
      P                  one line per type i: rows init_ok(t=i,v=j) assign_ok(t=i,v=j) cast_ok(lhs=i,target=j)
-                        cast_assignable_ok(lhs=i,target=j)
+                        cast_assignable_ok(lhs=i,target=j) arg_ok(value param=i,arg=j) arg_ok(Referenz param=i, assignable arg=j) return_ok(ret=i,v=j)
      W                  well-formedness (ids identify objects) of the registered population
+   Function instantiation cache (coq/Types/GenericFun.v): FR reset | FX <f> <extern 0/1> <declaring module> |
+   FQ <f> <genericModule or -> <p.module> <spec>:<ref 0/1> ... -> "FQ H|N <id>" | FF <id> | FF @ (the body of <id> / of the last requested instantiation failed) | FZ (echo) |
+   FD -> "FE <f> <key module> <spec;spec>" per entry.
    Type-level generic commands GR GS GI GC GB GU GT: see harness/go/cmd/typex/generic.go (same syntax, same
    output; instantiated Kombinationen are renumbered 1000.. in the order they are first printed). *)
 open C14_model
@@ -58,6 +61,14 @@ let rec show = function
 
 let bit b = if b then '1' else '0'
 
+(* ---- function instantiation cache state ---- *)
+let fextern : (int, bool) Hashtbl.t = Hashtbl.create 8
+let fdeclmod : (int, int) Hashtbl.t = Hashtbl.create 8
+let f_is_extern f = try Hashtbl.find fextern (int_of_n f) with Not_found -> false
+let f_decl_mod f = n_of_int (try Hashtbl.find fdeclmod (int_of_n f) with Not_found -> 0)
+let fst_ = ref fstate0
+let last_fq = ref 0
+
 (* ---- generic scenario state ---- *)
 let rec nat_of_int i = if i <= 0 then O else S (nat_of_int (i - 1))
 let arities : (int, int) Hashtbl.t = Hashtbl.create 8
@@ -105,8 +116,23 @@ let () =
     | ["P"] ->
       let ts = all () in
       Array.iteri (fun i a ->
-        Printf.printf "P %d %s %s %s %s\n" i (row ts (init_ok a)) (row ts (assign_ok a)) (row ts (cast_ok a)) (row ts (cast_assignable_ok a))) ts
+        Printf.printf "P %d %s %s %s %s %s %s %s\n" i (row ts (init_ok a)) (row ts (assign_ok a)) (row ts (cast_ok a)) (row ts (cast_assignable_ok a))
+          (row ts (arg_ok false true false a)) (row ts (arg_ok true true false a)) (row ts (return_ok true a))) ts
     | ["W"] -> Printf.printf "W %c\n" (bit (wf_types (Array.to_list (all ()))))
+    | ["FR"] -> Hashtbl.reset fextern; Hashtbl.reset fdeclmod; fst_ := fstate0
+    | ["FX"; f; x; d] -> Hashtbl.replace fextern (int_of_string f) (x = "1"); Hashtbl.replace fdeclmod (int_of_string f) (int_of_string d)
+    | "FQ" :: f :: g :: pm :: ps ->
+      let params = List.map (fun s -> match String.split_on_char ':' s with [sp; r] -> (parse_spec sp, r = "1") | _ -> failwith "bad param") ps in
+      let gm = if g = "-" then None else Some (n_of_int (int_of_string g)) in
+      let (r, st') = fstep f_is_extern f_decl_mod !fst_ (EReq (n_of_int (int_of_string f), gm, n_of_int (int_of_string pm), params)) in
+      fst_ := st';
+      (match r with Hit i -> last_fq := int_of_n i; Printf.printf "FQ H %d\n" (int_of_n i) | New i -> last_fq := int_of_n i; Printf.printf "FQ N %d\n" (int_of_n i) | Done -> print_endline "FQ ?")
+    | ["FF"; "@"] -> let (_, st') = fstep f_is_extern f_decl_mod !fst_ (EFail (n_of_int !last_fq)) in fst_ := st'
+    | ["FZ"] -> print_endline "FZ"
+    | ["FF"; id] -> let (_, st') = fstep f_is_extern f_decl_mod !fst_ (EFail (n_of_int (int_of_string id))) in fst_ := st'
+    | ["FD"] ->
+      List.iter (fun e -> Printf.printf "FE %d %d %s\n" (int_of_n e.fe_fun) (int_of_n e.fe_mod)
+        (String.concat ";" (List.map (fun (t, r) -> show t ^ (if r then "&" else "")) e.fe_params))) !fst_.fins
     | ["GR"] -> Hashtbl.reset arities; Hashtbl.reset seen_fwd; Hashtbl.reset seen_rev; gst := gstate0 (n_of_int first_id); sigma := []
     | "GS" :: gid :: ps -> Hashtbl.replace arities (int_of_string gid) (List.length ps)
     | "GI" :: gid :: specs ->
